@@ -152,6 +152,9 @@ carquet_status_t carquet_schema_add_column(
     memset(elem, 0, sizeof(*elem));
 
     elem->name = carquet_arena_strdup(&schema->arena, name);
+    if (!elem->name) {
+        return CARQUET_ERROR_OUT_OF_MEMORY;
+    }
     elem->has_type = true;
     elem->type = physical_type;
     elem->has_repetition = true;
